@@ -564,10 +564,12 @@ def eq_matrix(groups):
     for g in groups:
         objs = [_build_obj(s) for s in g["specs"]]
         n = len(objs)
-        eq = [[1 if (objs[i] == objs[j]) else 0 for j in range(n)] for i in range(n)]
+        eq0 = [[1 if (objs[i] == objs[j]) else 0 for j in range(n)] for i in range(n)]
         hs = []
         for o in objs:
             hs.append(hash(o))
+        # hashing caches state inside the objects (also in their arguments): == is observed again afterwards
+        eq = [[1 if (objs[i] == objs[j]) else 0 for j in range(n)] for i in range(n)]
         ids = {}
         hcls = [ids.setdefault(h, len(ids) + 1) for h in hs]
         un = []
@@ -583,7 +585,7 @@ def eq_matrix(groups):
                     row.append(2)
             un.append(row)
         gr = [1 if is_ground(o) else 0 for o in objs]
-        out.append({"id": g["id"], "eq": eq, "hash": hcls, "unif": un, "ground": gr,
+        out.append({"id": g["id"], "eq": eq, "eq0": eq0, "hash": hcls, "unif": un, "ground": gr,
                     "repr": [repr(o) for o in objs], "types": [type(o).__name__ for o in objs]})
     return {"results": out}
 
